@@ -34,6 +34,7 @@ const (
 	group = "sg"
 
 	keyNotAscending = "gap-after-entries-not-ascending" // mapped to the stable class of DESIGN section 5 item 2
+	keyAckErrorLost = "kfake-piggyback-ack-error-lost"  // mapped to C12:kfake:piggyback-ack-error-lost-on-parked-fetch
 )
 
 type batch struct {
@@ -56,6 +57,7 @@ type ackReq struct {
 	ok        bool // ... and it reported success for the partition
 	respAt    int
 	retrans   bool // identical re-send of a request whose response never arrived
+	invalid   bool // batches malformed, overlapping or not ascending: a broker must answer with an error
 }
 
 type pending struct {
@@ -202,6 +204,7 @@ func (st *state) onAckReq(m *member, c *netctl.Conn, key int16, epoch int32, isR
 			dupInReq = true
 		}
 	}
+	r.invalid = !valid || dupInReq || !asc
 	switch {
 	case !valid:
 		x.Violate("batch-malformed", "%s key %d: malformed acknowledgement batch in %v", m.name, key, bs)
@@ -258,6 +261,17 @@ func (st *state) onAckResp(m *member, r *ackReq, top int16, partErr int16, found
 	r.responded = true
 	r.respAt = st.tick()
 	r.ok = top == 0 && found && partErr == 0
+	if r.ok && r.invalid {
+		// kfake's validateOneAckBatch rejects such a list (as Kafka does); an
+		// answer without an error code means the verdict got lost on the way.
+		st.x.Violate(keyAckErrorLost, "%s: request key %d with acknowledgement batches %v (overlapping or not ascending: the broker rejects them and applies nothing) was answered WITHOUT an acknowledgement error; the client reports success to the ShareAckCallback and the records come back later", m.name, r.key, r.batches)
+		r.ok = false // do not treat the records as confirmed: the consequence is the same finding
+		if r.userAck {
+			m.userResps++
+		}
+		m.okAll++
+		return
+	}
 	if r.ok {
 		m.okAll++ // gap-only requests get a (nil) callback result as well
 	}
@@ -570,6 +584,7 @@ type variant struct {
 	compacted bool
 	two       bool   // second member B joins after A's first poll and leaves
 	moveAt    string // "", "poll1", "ack1b": leader move becomes enabled after that step of A
+	piggy     bool   // no renew and no FlushAcks after the first poll: the acknowledgements ride on the next ShareFetch
 	pollMax   int
 }
 
@@ -722,6 +737,10 @@ func scenario(v variant) *netctl.Scenario {
 				// lowest: accept, second: release, third: reject (plain) / renew, fourth: renew
 				var renewed []*polled
 				for i, p := range p1 {
+					if v.piggy {
+						a.ack(p, []kgo.AckStatus{kgo.AckAccept, kgo.AckReject, kgo.AckAccept, kgo.AckReject}[i%4])
+						continue
+					}
 					switch i {
 					case 0:
 						a.ack(p, kgo.AckAccept)
@@ -739,8 +758,10 @@ func scenario(v variant) *netctl.Scenario {
 						renewed = append(renewed, p)
 					}
 				}
-				t.Step("flush1")
-				a.flush()
+				if !v.piggy {
+					t.Step("flush1")
+					a.flush()
+				}
 				t.Step("ack1b")
 				for _, p := range renewed {
 					a.ack(p, kgo.AckReject) // renew then terminal
@@ -883,6 +904,7 @@ var variants = []variant{
 	{name: "N-compact", compacted: true, pollMax: 3},
 	{name: "N-plain-move1", pollMax: 4, moveAt: "poll1"},
 	{name: "N-compact-move2", compacted: true, pollMax: 3, moveAt: "ack1b"},
+	{name: "N-compact-piggy", compacted: true, pollMax: 3, piggy: true},
 	{name: "N-two", pollMax: 4, two: true},
 	{name: "N-two-compact", compacted: true, pollMax: 3, two: true},
 }
@@ -911,6 +933,9 @@ func Plans() []nrun.Plan {
 func KeyOf(scenario, key string) string {
 	if key == keyNotAscending {
 		return "C12:buildAckRanges:gap-after-entries-not-ascending"
+	}
+	if key == keyAckErrorLost {
+		return "C12:kfake:piggyback-ack-error-lost-on-parked-fetch"
 	}
 	return "C12:" + scenario + ":" + key
 }
